@@ -163,6 +163,28 @@ def _install_intersection_recorder(G):
 # --------------------------------------------------------------------------
 # constructor / move hooks (library-internal objects: diagnostics + counters)
 
+_INTERNAL_RATE = float(os.environ.get("G3DV_INTERNAL_INV", "0.02"))
+_internal_tick = [0]
+
+
+def _internal_check(obj, where):
+    """sampled invariant evaluation on objects the library builds internally
+    (diagnostic only: counted and reported, never a verdict)"""
+    if _INTERNAL_RATE <= 0:
+        return
+    _internal_tick[0] += 1
+    if _INTERNAL_RATE < 1 and (_internal_tick[0] * _INTERNAL_RATE) % 1.0 >= _INTERNAL_RATE:
+        return
+    ST.inv_internal["evaluated"] += 1
+    try:
+        bad = invariants(obj, deep=False)
+    except Exception:
+        return
+    ST.inv_checked -= 1
+    for b in bad[:1]:
+        ST.inv_internal["%s: %s" % (where, b.split("(")[0].strip())] += 1
+
+
 def _install_ctor_hooks(G):
     def wrap_init(cls, name):
         orig = cls.__init__
@@ -170,6 +192,7 @@ def _install_ctor_hooks(G):
         def __init__(self, *a, **kw):
             orig(self, *a, **kw)
             ST.ctor_counts[name] += 1
+            _internal_check(self, name)
         __init__.__wrapped__ = orig
         cls.__init__ = __init__
 
@@ -179,6 +202,7 @@ def _install_ctor_hooks(G):
         def move(self, v):
             r = orig(self, v)
             ST.ctor_counts[name + ".move"] += 1
+            _internal_check(self, name + ".move(receiver)")
             return r
         move.__wrapped__ = orig
         cls.move = move
